@@ -358,20 +358,24 @@ class Interp(InterpBase, ExprMixin, AttrMixin, CallMixin, StmtMixin, CompMixin):
     def init_prototype(self, selfv, cname):
         """abstract heap of a fresh handle: constants assigned to self.<attr> in the constructors along the MRO"""
         c = self.M.classes[cname]
+        cache = self.cfg.__dict__.setdefault("_proto_cache", {})
         for k in reversed(self.M.mro(c)):
             init = k.methods.get("__init__")
             if init is None:
                 continue
-            sname = init.params[0]
-            assigned = {}
-            for n in ast.walk(init.node):
-                if isinstance(n, (ast.Assign, ast.AugAssign, ast.AnnAssign)):
-                    tgs = n.targets if isinstance(n, ast.Assign) else [n.target]
-                    for tg in tgs:
-                        for x in ast.walk(tg):
-                            if isinstance(x, ast.Attribute) and isinstance(x.value, ast.Name) and x.value.id == sname \
-                                    and isinstance(x.ctx, ast.Store):
-                                assigned.setdefault(x.attr, []).append(n.value if isinstance(n, ast.Assign) and x is tg else None)
+            assigned = cache.get(k.name)
+            if assigned is None:
+                sname = init.params[0]
+                assigned = {}
+                for n in ast.walk(init.node):
+                    if isinstance(n, (ast.Assign, ast.AugAssign, ast.AnnAssign)):
+                        tgs = n.targets if isinstance(n, ast.Assign) else [n.target]
+                        for tg in tgs:
+                            for x in ast.walk(tg):
+                                if isinstance(x, ast.Attribute) and isinstance(x.value, ast.Name) and x.value.id == sname \
+                                        and isinstance(x.ctx, ast.Store):
+                                    assigned.setdefault(x.attr, []).append(n.value if isinstance(n, ast.Assign) and x is tg else None)
+                cache[k.name] = assigned
             for attr, vals in assigned.items():
                 if self.M.lookup(c, attr, "getters") is not None:
                     continue
